@@ -1026,18 +1026,20 @@ impl Engine for GroupEngine {
         let labels = group_labels(&case, &out);
         let mut violations = if out.run.inconclusive.is_some() { Vec::new() } else { std::mem::take(&mut out.run.world.viol) };
         if self.fold_shared {
+            // shared oracles count for the group property only when the group
+            // itself is to blame (not a combinator nested inside a member)
             let extra: Vec<world::Violation> = violations
                 .iter()
                 .filter(|v| {
                     matches!(
                         v.oracle,
                         Oracle::L | Oracle::P | Oracle::Q | Oracle::D | Oracle::DV | Oracle::Conc | Oracle::WakerPanic | Oracle::Panic(_)
-                    )
+                    ) && v.fam == Some(case.fam)
                 })
                 .map(|v| world::Violation {
                     oracle: Oracle::Group(case.fam),
                     msg: format!("[{:?}] {}", v.oracle, v.msg),
-                    fam: None,
+                    fam: Some(case.fam),
                 })
                 .collect();
             violations.extend(extra);
